@@ -163,7 +163,7 @@ def encHandler : Handler ES where
     | "unm" :: rest =>
       match (kv rest "sec").bind unhex, kvNat rest "hook" with
       | some sec, some hook =>
-        (s, ["obs stored " ++ hex (if hook == 1 then squashHookStored Opaque.methods sec else plainStored sec)])
+        (s, ["obs stored " ++ hex (if hook == 1 then squashHookStored SquashHook.remarshals Opaque.methods sec else plainStored sec)])
       | _, _ => (s, ["obs bad-op"])   -- built-in configurations: direct oracles only (`viol` lines of the harness)
     | _ => (s, ["obs bad-op"])
   onObs := fun s toks =>
